@@ -314,7 +314,9 @@ class C10Check:
 
         E.LogCapture.__enter__ = enter
         try:
-            out = R.run_under_sim(ch, main, solver=solver, keep_log=keep_log, max_steps=60000)
+            # a branching query answered `unknown` (solver timeout) makes a decidable loop condition undecided
+            unknown_rate = ch.choose([0.0, 0.0, 0.3, 1.0], "sw.unk") if sc.kind.startswith("loop") else 0.0
+            out = R.run_under_sim(ch, main, solver=solver, keep_log=keep_log, max_steps=60000, unknown_rate=unknown_rate)
         finally:
             E.LogCapture.__enter__ = orig_enter
         vio = []
@@ -359,7 +361,10 @@ class C10Check:
                 vio.append(dict(oracle="C10:no-result", disc=sc.kind, detail=f"no TestResult; stdout {out.stdout[-300:]!r}"))
         shape = repr((sc.kind, sc.options, sc.mask, sc.k, sc.history, getattr(sc, "pad", 0), getattr(sc, "bits", 0),
                       getattr(sc, "target", 0), sc.nested))
-        res = dict(violations=vio, inconclusive=incon, faults=dict(out.sim.fault_counts), probes=probes, digest=out.sim.digest(),
+        faults = dict(out.sim.fault_counts)
+        for kf, nf in out.eseam.faults.items():
+            faults[kf] = faults.get(kf, 0) + nf
+        res = dict(violations=vio, inconclusive=incon, faults=faults, probes=probes, digest=out.sim.digest(),
                    shape=shape, nontrivial=nontrivial or probes.get("flagged", 0) > 0, sim_seconds=out.sim.now, steps=out.sim.steps,
                    descriptor=dict(kind=sc.kind, options=sc.options, mask=sc.mask, K=sc.k, history=sc.history, fails=fails,
                                    results=[(c, [(r.name, r.exitcode, r.num_bounded_loops) for r in rs]) for c, rs, _, _ in (out.results or [])],
